@@ -648,7 +648,8 @@ def check(rep, args):
     for cfg in configs:
         check_config(rep, facts.program(cfg))
     cov = {
-        "explanation": "who-may-touch / provenance / dominance rules over every use of the backing store of Inner<T, D> and its constructors",
+        "explanation": "element accessors interpreted over the nine orderings of (x ? w, y ? h) with symbolic geometry; Inner::new by path enumeration; "
+                       "who-may-touch / provenance / path-sensitive guard rules over every other use of the backing store of Inner<T, D>",
         "evaluations": len(rep.instances),
         "distinct_nontrivial": len({i["what"] for i in rep.instances}),
         "rules": ["R1", "R2", "R3", "R4", "R5", "R6"],
